@@ -375,9 +375,11 @@ Section CrashInv.
   (* every content of the abstract map has its blob, with its bytes *)
   Definition cas_has (sg : smap bytes) (x : fs) : Prop :=
     forall k c, In (k, c) sg -> fdat x (cas_path (H c)) = Some c.
-  (* a settings file that promises the fan-out directories is right *)
+  (* a settings file that promises the fan-out directories is right (for well-formed hashes:
+     bytes < 256, as in StoreInv.dirs_ok; satisfiable: PreCreate.pre_dirs_after_fresh_open) *)
   Definition pre_dirs (pre : bool) (x : fs) : Prop :=
-    pre = true -> forall h, length h = 32%nat -> parent_ok x (cas_path h) = true.
+    pre = true -> forall h, length h = 32%nat -> Forall (fun b => b < 256) h ->
+                  parent_ok x (cas_path h) = true.
 
   Definition Aux (pre : bool) (sg : smap bytes) (x : fs) : Prop :=
     FsWf x /\ stage_fresh x /\ pre_dirs pre x /\ cas_has sg x.
@@ -481,7 +483,7 @@ Section CrashInv.
   Lemma pre_dirs_mono : forall pre x x', (forall d, In d (dirs x) -> In d (dirs x')) ->
     pre_dirs pre x -> pre_dirs pre x'.
   Proof.
-    intros pre x x' Di P E h Lh. specialize (P E h Lh). unfold parent_ok in *.
+    intros pre x x' Di P E h Lh Bh. specialize (P E h Lh Bh). unfold parent_ok in *.
     destruct (parent_dir (cas_path h)); [|reflexivity]. apply has_dir_iff, Di, has_dir_iff, P.
   Qed.
 
